@@ -166,6 +166,16 @@ def _gen_case(seed, tier, index=0):
         _cross_seed(case, rng)
     if rng.chance(0.12):
         _stdout_dies(case, rng)
+    if rng.chance(0.1) and not case.get("may_refuse"):
+        # the very first run dies of a failing write (disk full after some bytes); the runs after it are the ones compared.
+        # Whatever the first run left, the later ones must agree with each other and must not leave a header in the file
+        # AND in a .license companion
+        reps = [st for st in case["variants"][0]["steps"] if st.get("phase") == "repeat"]
+        if len(reps) >= 3:
+            tgt = name + ".license" if opts.get("force_dot_license") else name
+            reps[0]["faults"] = [{"op": "write", "path": tgt, "errno": rng.pick(["ENOSPC", "EFBIG", "EIO"]), "after": rng.pick([0, 45, 80, 120, 200])}]
+            reps[0]["buffer_size"] = 16
+            reps[0]["phase"] = "torn"
     if rng.chance(0.5):
         # the file system lists directories in another order for every command
         for st in case["variants"][0]["steps"]:
@@ -287,7 +297,15 @@ def oracle(case, results):
     tag = f"{case['style']}/{mode}/{case['body']}" + ("/cross-seed" if case.get("cross_seed") else "")
     first = None
     nrep = 0
+    torn = False
     for k, (st, rec) in enumerate(zip(steps, recs)):
+        for p in tracked:
+            d = (rec.get("diff") or {}).get(p)
+            if d is not None and st.get("phase") == "torn":
+                cur[p] = d.get("content") if d.get("after") else None
+        if st.get("phase") == "torn":
+            torn = any(f.startswith("write:") for f in rec.get("fired", []))
+            continue
         if rec.get("exc") and not any(f.startswith("stdout:EPIPE") for f in rec.get("fired", [])):
             vs.append({"sig": f"C10/crashed/{rec['exc']['type']}/{tag}", "detail": rec["exc"]["tb"][-500:]})
             return vs
@@ -304,6 +322,8 @@ def oracle(case, results):
         if rec.get("exit") != 0 and not stdout_died:
             if rec.get("exit") == 2 and nrep == 1:
                 return vs  # the combination is refused as a usage error: nothing to re-run
+            if torn and nrep == 1:
+                return vs  # what the dying run left (half a multi-byte character, say) is refused: nothing to re-run
             if case.get("may_refuse") and nrep == 1 and all(cur[p] == orig.get(p) for p in tracked):
                 return vs  # refused (the text could not be read back) and nothing written: nothing to re-run
             vs.append({"sig": f"C10/nonzero-exit/run{min(nrep, 2)}/{tag}", "detail": f"run {nrep}: exit={rec.get('exit')} stdout={rec.get('stdout', '')[-300:]} argv={st['argv']}"})
@@ -320,6 +340,14 @@ def oracle(case, results):
             vs.append({"sig": f"C10/not-idempotent/{tag}",
                        "detail": f"run {nrep} changed {changed} although the arguments are identical (argv={st['argv']}; hash seeds of the runs: {[s.get('hashseed', 'executor') for s in steps if s.get('phase') != 'setup']}).\n--- {p} after run 1:\n{first[p]!r:.700}\n--- after run {nrep}:\n{cur[p]!r:.900}"})
             return vs
+    if torn and nrep >= 2 and not opts.get("skip_existing"):
+        # after a run that died while writing: the runs that followed must not have settled on TWO headers, one in the
+        # file and one in a companion the arguments did not ask for
+        for name_ in names:
+            a, b = cur.get(name_) or "", cur.get(name_ + ".license")
+            if b is not None and "SPDX-" in a and "SPDX-" in b and not opts.get("force_dot_license") and orig.get(name_ + ".license") is None:
+                vs.append({"sig": f"C10/two-headers/file-and-companion/{tag}", "detail": f"{name_}:\n{a!r:.400}\n{name_}.license:\n{b!r:.400}"})
+                return vs
     # exactly one header block: every requested licence line occurs once
     if nrep >= 2 and not opts.get("skip_existing"):
         req = A.requested(opts, "2024")
